@@ -336,3 +336,42 @@ _all2 = all_scenarios
 def all_scenarios():                                   # noqa: F811
     yield from _all2()
     yield from single_scenarios()
+
+
+# ---------------------------------------------------------------------------------------------
+# Relevant Patient Information Query (its own C-FIND SCP)
+# ---------------------------------------------------------------------------------------------
+RPI_GENERAL = "1.2.840.10008.5.1.4.37.1"
+
+
+def rpi_scenarios():
+    P = (0xFF00, ident())
+    scripts = [
+        ("yields one match", [P], ""),
+        ("yields (Warning 0x0107, None) - a general status listed for the service", [(0x0107, None)], "missing"),
+        ("yields (Warning 0x0116, None)", [(0x0116, None)], "missing"),
+        ("yields (0xFF01, identifier) - Pending category, not defined for the service", [(0xFF01, ident())], "last-response-is-final"),
+        ("yields nothing", [], ""),
+        ("yields (Failure 0xC100, None)", [(0xC100, None)], ""),
+        ("yields (Cancel 0xFE00, None)", [(0xFE00, None)], ""),
+        ("yields (0x0000, None)", [(0x0000, None)], ""),
+        ("yields unknown status 0xFFF0", [(0xFFF0, None)], ""),
+        ("yields a bare None", [None], ""),
+        ("yields a 3-tuple", [(0xFF00, ident(), 1)], ""),
+        ("raises", [RuntimeError("x")], ""),
+        ("yields Pending with an unencodable identifier", [(0xFF00, "x")], ""),
+        ("yields status 70000", [(70000, None)], "encodable"),
+    ]
+    for desc, items, tag in scripts:
+        yield dict(desc=f"Relevant Patient Information Query C-FIND; handler {desc}", tag=tag, kind="rpi",
+                   cls=SCm.RelevantPatientInformationQueryServiceClass, req=lambda: find_req(RPI_GENERAL), cx=context(RPI_GENERAL),
+                   handlers={evt.EVT_C_FIND: (gen(items), None)}, repo=False,
+                   applies=lambda ob, tag=tag: ("RelevantPatientInformationQueryServiceClass" in ob) and (tag in ob if tag else True))
+
+
+_all3 = all_scenarios
+
+
+def all_scenarios():                                   # noqa: F811
+    yield from _all3()
+    yield from rpi_scenarios()
